@@ -662,7 +662,7 @@ def report(rep, case, d, driver):
 
 def check(rep, tier, seed, driver):
     rng = random.Random(seed)
-    n = 420 if tier == "quick" else 5000
+    n = 420 if tier == "quick" else 3000
     rep.rule = ("random ask/tell programs (0-25% out-of-order calls incl. ask_dqd/tell_dqd, malformed tells) on a real BanditScheduler: "
                 "pool of 1-8 scripted spy emitters (with/without a `restarts` attribute, restarting with probability 0-0.8 per "
                 "iteration), num_active 1..pool, reselect terminated/all, add_mode batch/single, zeta in {0, .05, .3, 1, 4}, "
